@@ -412,6 +412,60 @@ def like_points(rng, deck, n):
     return pts
 
 
+def all_generated_volumes_empty(deck, rng_seed=7, n_points=400):
+    '''True when, by the reference semantics alone, NO point can belong to any
+    generated volume of the deck:
+      (a) on sample points, the reference never finds a live leaf (a level-0
+          cell with importance, down to a cell without FILL);
+      (b) symbolically, every live level-0 cell is a filled cell whose filling
+          universe is placed without a fill transformation (so the fillers
+          share the container's surfaces, moved together with it by its TRCL if
+          any) and EVERY cell of that universe requires the opposite side of
+          one of the container's surfaces (pure intersections, fillers without
+          TRCL of their own).
+    Both must hold.  Used only to classify a crash of the writer on an
+    all-empty geometry; never looks at what the implementation said.'''
+    import copy
+    import random
+    work = copy.deepcopy(deck)
+    for c in work['cells']:
+        c['u'] = abs(c.get('u', 0))
+    ref = mcnpref.Reference(work, eps=1e-6)
+    by_u = {}
+    for c in work['cells']:
+        if c.get('like') is not None:
+            return False
+        by_u.setdefault(c['u'], []).append(c)
+    live0 = [c for c in by_u.get(0, []) if not importance_zero(c)]
+    if not live0:
+        return False
+    for cont in live0:
+        fill = cont.get('fill')
+        lits = _lits(cont['expr'])
+        if fill is None or fill.get('tr') is not None or lits is None \
+                or 'u' not in fill:
+            return False
+        fillers = by_u.get(fill['u'], [])
+        if not fillers:
+            return False
+        for f in fillers:
+            own = _lits(f['expr'])
+            if own is None or f.get('trcl') is not None:
+                return False
+            if not any(-l in own for l in lits):
+                return False
+    rng = random.Random(rng_seed)
+    for p in sample_points(rng, n_points):
+        try:
+            chain = ref.locate(np.array(p, float))
+        except mcnpref.Ambiguous:
+            continue
+        if (chain is not None and chain[-1] is not None
+                and not importance_zero(ref.resolve(chain[0][0]))):
+            return False
+    return True
+
+
 def expected_provenance(chain):
     '''chain = [(c0, None), ..., (leaf, None)] -> the converter's comment:
     (leaf, innermost container) ... (leaf, level-0 container).'''
